@@ -578,7 +578,12 @@ impl<T: Iterator<Item = PathEl>> Iterator for DashIterator<'_, T> {
                     if self.input_done {
                         return None;
                     }
-                    self.state = DashState::ToStash;
+                    // A subpath without any segment (`MoveTo` directly followed by
+                    // `ClosePath`, or a repeated `ClosePath`) is closed by `get_input`
+                    // itself; there is no current segment to dash then.
+                    if self.state != DashState::FromStash {
+                        self.state = DashState::ToStash;
+                    }
                 }
                 DashState::ToStash => {
                     if let Some(el) = self.step() {
@@ -689,6 +694,8 @@ impl<'a, T: Iterator<Item = PathEl>> DashIterator<'a, T> {
     }
 
     fn get_input(&mut self) {
+        // Set when this call has consumed a `MoveTo`: the current subpath has no segment yet.
+        let mut subpath_is_empty = false;
         loop {
             if self.closepath_pending {
                 self.handle_closepath();
@@ -708,6 +715,7 @@ impl<'a, T: Iterator<Item = PathEl>> DashIterator<'a, T> {
                     self.start_pt = p;
                     self.last_pt = p;
                     self.reset_phase();
+                    subpath_is_empty = true;
                     continue;
                 }
                 PathEl::LineTo(p1) => {
@@ -729,6 +737,11 @@ impl<'a, T: Iterator<Item = PathEl>> DashIterator<'a, T> {
                     self.last_pt = p3;
                 }
                 PathEl::ClosePath => {
+                    if subpath_is_empty {
+                        // Closing a subpath that has no segments: there is nothing to dash
+                        // and no first dash of this subpath to join with.
+                        continue;
+                    }
                     self.closepath_pending = true;
                     if p0 != self.start_pt {
                         let l = Line::new(p0, self.start_pt);
